@@ -93,9 +93,9 @@ type bufRun struct {
 	orderOK   bool
 	audOK     bool // the auditor read every value
 	pos       map[Val]int
-	single    bool // one producer only
+	single    bool  // one producer only
 	quiesced  int64 // stamp of the first quiescent instant of finish() (0 before)
-	huge      bool // one producer puts a batch of a few thousand values (forced-trim modes without an auditor)
+	huge      bool  // one producer puts a batch of a few thousand values (forced-trim modes without an auditor)
 }
 
 func asVal(x interface{}) (Val, bool) {
